@@ -79,7 +79,7 @@ def impl_resolve(kind, center, h, n, axis):
         elif kind == "rect":
             g = j["RG"].uniform(tuple(shape), h, center=tuple(c3))
         else:
-            d = [abs(h) if h != 0 else 1.0] * 3
+            d = [2.0 * abs(h) if h != 0 else 1.0, 3.0 * abs(h) if h != 0 else 1.0, 5.0 * abs(h) if h != 0 else 1.0]
             d[axis] = h
             g = j["QG"](dx=d[0], dy=d[1], dz=d[2], center=tuple(c3)).resolve(tuple(shape))
     except ValueError as ex:
